@@ -499,7 +499,7 @@ theorem assemble_wf {src : Source} {fix : Bool} {bm : BM} (h : assemble src fix 
       have hl : ls = [] := List.eq_of_mem_replicate h1.2
       subst hl
       simp only [List.getElem?_eq_getElem hd, List.filterMap_nil]
-      exact (hcp _ (List.getElem_mem hd)).1
+      rw [(hcp _ (List.getElem_mem hd)).1]; rfl
     · intro cp hcpm
       unfold WfBM.soOpsServed
       rw [List.all_eq_true]
